@@ -107,6 +107,7 @@ PROPS["C04"] = {
     "assumptions": ["acyclic values; recursion that terminates within the host stack"],
 }
 PROPS["C07"] = {
+    "violation_if": {"cancel": r"^HANG"},
     "lean_module": "LispModel.Props.C07",
     "engines": [{"name": "cancel", "quick": 2500, "thorough": 40000}],
     "technique": "Lean 4 theorems about the poll structure of the evaluator model (every loop iteration polls first) + poll-counting context correspondence",
@@ -231,6 +232,46 @@ PROPS["C10"] = {
     "level_note": _CONC_NOTE,
     "assumptions": _CONC_ASSUME + ["context.WithCancel propagation is assumed correct (cancelling = the micro-op cancelCtx, seen by a body that honours it)",
                                    "the system is observed from the moment the `future` call returned (NewFuture spawns exactly one goroutine: regenerated fact)"],
+}
+
+PROPS["C02"] = {
+    "model_is_spec": ["hist"],
+    "lean_module": "LispModel.Props.C02",
+    "tie_modules": ["LispModel.Tie.Appends"],
+    "engines": [{"name": "hist", "quick": 4000, "thorough": 100000}],
+    "technique": "Lean 4 frame theorem over a Go slice/array heap model + regenerated append-site facts + differential correspondence on operation histories",
+    "level_text": "Kernel-checked: every collection builtin, modelled at the level of Go slices (backing array, offset, length, capacity, append in place "
+                  "when capacity allows), refines its pure meaning and leaves every live value reading back unchanged (step_frame), hence histories of any "
+                  "length and fan-out are immutable; the slice-level model is tied to the source by facts regenerated on every run (every append site in the "
+                  "value-producing functions is fresh, subvec uses a 3-index slice) and to the behaviour by histories in which every earlier binding is "
+                  "re-read after every step and compared with the pure model.",
+    "level_note": _EVAL_NOTE + " The heap model (Heap.lean/CoreHeap.lean) mirrors which array each builtin writes; Go's append/growslice policy is a parameter.",
+    "assumptions": ["_PACKAGES_ is mutated in place by call.call at registration time: host-side registration, not a lisp operation",
+                    "with-meta / meta are modelled at slice level only (the evaluator model has no metadata)"],
+}
+
+PROPS["C17"] = {
+    "lean_module": "LispModel.Props.C17",
+    "engines": [{"name": "pos", "quick": 4000, "thorough": 80000}],
+    "technique": "Lean 4 theorems about reader cursors and the flow of positions through the evaluator model + differential correspondence of error positions on programs with one planted fault",
+    "level_text": "PARTIAL (rows only; finding D16b known): reader theorems (cursors name the module, list rows span opening to closing token, children within "
+                  "parents, rows = newline counts, unshifted by comments/blank lines/raw strings) and the invariant that every position in a returned error is a "
+                  "cursor of the program or store (never invented, first position wins); the tie reads generated multi-line programs with a planted fault under "
+                  "a module name, compares the real error position (all four coordinates) with the model's and checks the property's containment statement on it.",
+    "level_note": _EVAL_NOTE + " Columns are compared with the model but not claimed by the property.",
+    "assumptions": ["errors raised in other goroutines are excluded by the property", "columns are not claimed"],
+}
+PROPS["C19"] = {
+    "lean_module": "LispModel.Props.C19",
+    "engines": [{"name": "routes", "quick": 2500, "thorough": 40000}],
+    "technique": "Lean 4 theorems (evaluation commutes with every cursor map, layout gaps are invisible to the scanner, do creates no scope, load-file wrapper) + differential run of one program over seven delivery routes and random layouts",
+    "level_text": "Theorems: the whole evaluator block commutes with erasing (or changing) source positions — values, payloads, effects and store are equal, only "
+                  "error positions differ; whitespace and comments between tokens do not change the token sequence; `do` evaluates its forms in the same scope; "
+                  "the repaired load-file wrapper tokenizes as (do <src> nil) even after a trailing comment. Tie: each generated program is delivered as text "
+                  "with/without module, as AST without cursors, re-read from its printed form, form by form through REPL, and through load-file, under random "
+                  "layouts (comments, blank lines, CRLF, trailing comment without newline); all routes must agree and the first is compared with the model.",
+    "level_note": _EVAL_NOTE,
+    "assumptions": ["programs of the C01/C12 class without deliberate errors", "files are written under the check's scratch directory"],
 }
 
 # properties not claimed at this commit, with the reason
